@@ -27,6 +27,8 @@ def cases(tier, seed):
     pool = content_pool()
     ws = [F(1), F(2), F(1, 3)]
     cs = []
+    cs.append(("profile", (1, 1), (F(1, 999983), F(5, 999979))))
+    cs.append(("profile", (4, 4, 5), (F(1, 999983), F(5, 999979), F(2000003, 3000001))))
     maxn = 3 if tier == "quick" else 4
     rng = random.Random(seed)
     for n in range(1, maxn + 1):
